@@ -293,11 +293,20 @@ def main() -> int:
     kinds = list(FS_FAULTS) + INJECTED + list(SIDECAR_FAULTS)
     positions = ["", "c", "m", "zz"]      # sorts first, early, middle, last among the healthy names
     idx = 0
+    lists = (("umn", None), ("plain", driver.HANDLERS_PLAINDIR), ("full", driver.HANDLERS_FULL),
+             ("full+rewriter", driver.HANDLERS_FULL_REWRITE))
+    if not quick and chk.args.shard is None:
+        # one process per (handler list, half of the pair enumeration)
+        common.run_shards(chk, "vf.checks.c12", 2 * len(lists), timeout=3300)
+        return _finish(chk)
+    shard = chk.args.shard
     with Scratch("c12") as sc:
-        for hl_name, hl in (("umn", None), ("plain", driver.HANDLERS_PLAINDIR), ("full", driver.HANDLERS_FULL),
-                           ("full+rewriter", driver.HANDLERS_FULL_REWRITE)):
+        for li, (hl_name, hl) in enumerate(lists):
+            if shard is not None and shard // 2 != li:
+                continue
             # singles: every fault kind x every position x directory sizes
-            for kind in kinds:
+            # (sharded: the singles run in the even shard of each handler list)
+            for kind in (kinds if shard is None or shard % 2 == 0 else []):
                 for pos in positions:
                     for nh in ([1, 4, 8] if not quick else [1, 5]):
                         # (one-character directory names: '/d/x' has the shape of a type-prefixed selector)
@@ -313,10 +322,16 @@ def main() -> int:
             # pairs of faulty entries: all pairs of positions for every pair of kinds (thorough) / two kinds (quick)
             pair_kinds = list(itertools.combinations(kinds, 2)) if not quick else \
                 [("dangling-symlink", "fifo"), ("name-dotdot", "stat-EACCES"), ("vanished-after-enumeration", "socket")]
+            if shard is not None:
+                pair_kinds = pair_kinds[shard % 2::2]
             for k1, k2 in pair_kinds:
                 for p1, p2 in itertools.product(positions, positions) if not quick else [("", "zz"), ("m", "m"), ("c", "")]:
                     run_case(chk, sc, idx, hl, hl_name, 4, [(k1, p1), (k2, "x" + p2)], b"")
                     idx += 1
+    return _finish(chk)
+
+
+def _finish(chk: Check) -> int:
     return chk.finish(
         rule="case = (directory handler, fault kinds, sort positions of the faulty entries, number of healthy entries): "
              "the directory is listed through 7 protocol views and, after removing the faulty entries' own lines, "
@@ -327,7 +342,7 @@ def main() -> int:
              "shell and glob syntax; singles at 4 positions, and pairs; under the UMN handler also with a link file "
              "in the directory whose stanzas (hide / rename / number) name the faulty entries; faulty names carry the "
              "suffixes handlers match by pattern (.gophermap .zip .mbox .pyg .html .html.tal .txt.gz); unservable "
-             "objects named like a healthy sibling's (or sub-directory's) sidecar; three handler lists",
+             "objects named like a healthy sibling's (or sub-directory's) sidecar; non-UTF-8 faulty names; four handler lists",
         assumptions=["faults are injected by interposing os.listdir/os.stat in the harness process (hit counter checked)"],
         exhaustive=True)
 
